@@ -518,6 +518,31 @@ def run(ctx):
             ctx.ob("R-C16.6", ap, "option-%s-reaches-tree-config" % name, ok, "Config::%s(our_config.%s)" % (setter, name) if ok else "option %s is not handed to lsm_tree::Config::%s (got %s): the tree would run with a default" % (name, setter, got))
         ctx.floor("R-C16.6", "options handed to the tree config", n_set, 13)
 
+    # ---- R-C16.8 option rows are keyed per keyspace: encode_config_key writes the row tag, the keyspace id and the option name —
+    # without the id all keyspaces share one set of option rows (the last created keyspace's options are everybody's after
+    # a reopen); and both the writer (create_keyspace) and the reader (get_kv_for_config / recovery) go through it
+    eck = ctx.fn("meta_keyspace::encode_config_key", "R-C16.8")
+    if eck:
+        ogk = ctx.og(eck)
+        wrote = {"tag": False, "id": False, "name": False}
+        for b, t in eck.calls():
+            n = A.cname(t)
+            if len(t["args"]) < 2:
+                continue
+            a1 = ogk.of_operand(t["args"][1])
+            if n.endswith("::write_u8") and a1.k == "const":
+                wrote["tag"] = True
+            if n.endswith("::write_u64") and a1.k == "param" and a1.a[0] == 1:
+                wrote["id"] = True
+            if n.endswith("::write_all") and a1.k == "param" and a1.a[0] == 2:
+                wrote["name"] = True
+        ok = all(wrote.values())
+        ctx.ob("R-C16.8", eck, "option-rows-are-keyed-by-tag-keyspace-id-and-name", ok,
+               "config key = tag ++ keyspace id ++ option name" if ok else
+               "encode_config_key does not write %s: option rows of different keyspaces / different options collide — after a reopen a keyspace runs with another keyspace's (or another option's) stored value" % ", ".join(k for k, v in wrote.items() if not v))
+        users = [f for f, b in ctx.cg.callers("meta_keyspace::encode_config_key")]
+        ctx.floor("R-C16.8", "users of encode_config_key (writer and reader side)", users, 2)
+
     # ---- borrowed obligations (mechanisms owned by other properties that this property's verdict also rests on)
     # an existing keyspace is never created a second time with other options
     ctx.borrow("C12", ["R-C12.7"], "R-C16.6")
